@@ -341,8 +341,7 @@ func cmdEval(prop string, n int, seed uint64, driver, out, corpus string) (*Resu
 		}
 	}
 	// kernel sample: a slice of the cases with the answers the extracted model gave
-	writeKernelSample(out, lines, modelLines, 40)
-	res.KernelCases = min(40, len(lines))
+	res.KernelCases = writeKernelSample(out, lines, modelLines, 40)
 	return res, nil
 }
 
@@ -363,7 +362,10 @@ func hashSeed(s string) uint64 {
 }
 
 // writeKernelSample writes cases.v: the same run_line evaluated inside the kernel must reproduce the driver's answers.
-func writeKernelSample(out string, lines, answers []string, k int) {
+func writeKernelSample(out string, lines, answers []string, k int) int {
+	if os.Getenv("VERIF_TIER") == "thorough" { // each chunk of a thorough run re-evaluates five times as many cases in the kernel
+		k *= 5
+	}
 	var sb strings.Builder
 	sb.WriteString("From LD Require Import Base Wire.\nOpen Scope N_scope.\n")
 	sb.WriteString("Definition eqb_lines (a b : list N) : bool := (fix go a b := match a, b with [], [] => true | x :: a', y :: b' => N.eqb x y && go a' b' | _, _ => false end) a b.\n")
@@ -386,6 +388,7 @@ func writeKernelSample(out string, lines, answers []string, k int) {
 	txt := strings.Replace(sb.String(), "Definition kernel_mismatches", "Fixpoint idx_false (i : nat) (l : list bool) : list nat := match l with [] => [] | b :: r => (if b then [] else [i]) ++ idx_false (Datatypes.S i) r end.\nDefinition filter_idx := idx_false O.\nDefinition kernel_mismatches", 1)
 	txt += "Print kernel_mismatches.\n"
 	os.WriteFile(filepath.Join(out, "cases.v"), []byte(txt), 0o644)
+	return cnt
 }
 
 func hasUnparsedLog(o *Out) bool {
